@@ -6,7 +6,12 @@ A case is a history of API calls on a fresh track of n observations. After EVERY
 observes the listed names, every column (read through the name), len(obs.features) of every
 observation, X/Y/Z/T, the outcome (ok / exception kind) and the returned value, on the real code,
 on the Lean model of the code (dict + rows) and on the Lean specification (name -> column).
-The oracle (`spec`) keeps, independently of both, "what was last written under each name"."""
+The oracle (`spec`) keeps, independently of both, "what was last written under each name".
+
+The `carry` stream makes a track from another one (copy / extract / slice / + / extractSpanTime / loop(add=True) /
+addObs or insertObs of an Obs.copy()), runs a history on it and then on the source again; the whole session is also run
+on the Lean model of the heap of Obs objects (Model/FeaturesWorld.lean: tracks hold references, the derivations are
+modelled) and every track is compared wherever the implementation is observed."""
 import re, json, hashlib, math
 import numpy as np
 from engine import Prop, fbits, bitsf, close
@@ -62,6 +67,164 @@ def close_scaled(a, b):
         return True                        # non-finite inputs: values out of scope (IEEE inf/nan algebra of the FFT)
     m = max([1.0] + [abs(v) for v in b])
     return all(isinstance(x, float) and abs(x - y) <= 1e-9 * m * max(1, len(b)) for x, y in zip(a, b))
+
+
+# ------------------------------------------------------------------------------------------
+# the "vals" stream: cell values that are arbitrary Python objects. The property says "exactly the values last written",
+# whatever they are; a value is described in a case by a JSON spec, made by mk_val, and observed as a TOKEN (vtok):
+#   numbers (bool, int, float, numpy scalars) by VALUE (`True == 1 == 1.0 == np.float64(1)`: one token, so a change of the
+#   number's type is not judged), NaN as one token; a str by its characters; any other object by type name and repr
+# ------------------------------------------------------------------------------------------
+from fractions import Fraction
+
+VAL_POOL = [["none"], ["none"], ["none"], ["bool", True], ["bool", False], ["int", "0"], ["int", "3"], ["int", "-7"],
+            ["int", str(2 ** 70 + 1)], ["float", "0.0"], ["float", "0.1"], ["float", "-2.5"], ["float", "nan"], ["float", "inf"],
+            ["str", "s"], ["str", ""], ["str", "#0"], ["str", "a"], ["str", "x"], ["str", "0.0"], ["str", "None"], ["str", "é b"],
+            ["np", "float64", "2.5"], ["np", "int32", "3"], ["np", "bool_", "1"], ["np", "float32", "0.5"],
+            ["complex", 1.0, 2.0], ["bytes", "6162"]]
+
+
+def mk_val(spec):
+    k = spec[0]
+    if k == "none":
+        return None
+    if k == "bool":
+        return bool(spec[1])
+    if k == "int":
+        return int(spec[1])
+    if k == "float":
+        return float(spec[1])
+    if k == "str":
+        return str(spec[1])
+    if k == "np":
+        return getattr(np, spec[1])(float(spec[2]) if "float" in spec[1] else int(spec[2]))
+    if k == "complex":
+        return complex(spec[1], spec[2])
+    if k == "bytes":
+        return bytes.fromhex(spec[1])
+    raise ValueError(spec)
+
+
+def vtok(v):
+    """Python object -> token (protocol-safe: letters, digits, - / only)"""
+    if isinstance(v, (bool, np.bool_)):
+        return "n1" if v else "n0"
+    if isinstance(v, (int, np.integer)):
+        return "n%d" % int(v)
+    if isinstance(v, (float, np.floating)):
+        f = float(v)
+        if f != f:
+            return "nnan"
+        if math.isinf(f):
+            return "ninf" if f > 0 else "n-inf"
+        return "n%s" % Fraction(f)
+    if isinstance(v, str):
+        return "s" + v.encode("utf-8").hex()
+    return "o" + ("%s:%r" % (type(v).__name__, v))[:200].encode("utf-8").hex()
+
+
+VTOK_RE = re.compile(r"'(s(?:[0-9a-f]{2})+|o(?:[0-9a-f]{2})+|n-?[0-9]+(?:/[0-9]+)?|nnan|ninf|n-inf)'")
+
+
+def untok_text(msg):
+    """tokens in a message -> readable values"""
+    def f(m):
+        t = m.group(1)
+        if t[0] == "n":
+            return t[1:]
+        txt = bytes.fromhex(t[1:]).decode("utf-8", "replace")
+        return repr(txt) if t[0] == "s" else "<" + txt + ">"
+    return VTOK_RE.sub(f, msg)
+
+
+DELETE_TOK = "s" + "#DELETE".encode().hex()
+
+
+class VTab:
+    """the oracle's table of the vals stream: name -> list of tokens, coordinates as tokens"""
+    def __init__(self, n):
+        self.n = n
+        self.cols = {}
+        self.X = [vtok(10.0 + i) for i in range(n)]
+        self.Y = [vtok(20.0 + 2 * i) for i in range(n)]
+        self.Z = [vtok(30.0 + 3 * i) for i in range(n)]
+        self.T = [vtok(1000.0 + i) for i in range(n)]
+
+
+def vcol(n, kind, val):
+    """the column a scalar / list argument stands for (None: a list shorter than the track - no expectation)"""
+    if kind == "s":
+        return [vtok(mk_val(val))] * n
+    l = [vtok(mk_val(v)) for v in val]
+    return l[:n] if len(l) >= n else None
+
+
+def expected_v(tab, op):
+    """vals stream: what a successful call must have done, from the documented meaning of the call (same shape as expected_)"""
+    n = tab.n
+    k = op[0]
+    e = {"cols": {}, "drop": set(), "coord": {}, "ret": "-", "scaled": False}
+    if n == 0:
+        return None
+    if k == "create":
+        if op[1] is None:
+            return None                    # None is not a feature name: no expectation on the outcome - nothing may change (no target)
+        if op[1] in RESERVED:
+            return None
+        if op[1] in tab.cols:
+            return e                       # creating an existing feature writes nothing
+        if op[2] == "d":
+            return None                    # no value given: whatever the default is, only the target may appear
+        c = vcol(n, op[2], op[3])
+        if c is None:
+            return None
+        e["cols"][op[1]] = c
+        return e
+    if k in ("update", "setitem"):
+        if op[1] in RESERVED or (k == "update" and op[1] not in tab.cols):
+            return None
+        c = vcol(n, op[2], op[3])
+        if c is None:
+            return None
+        e["cols"][op[1]] = c
+        return e
+    if k == "remove":
+        if op[1] not in tab.cols:
+            return None
+        e["drop"].add(op[1])
+        return e
+    if k == "setobs":
+        if op[1] not in tab.cols or op[2] >= n:
+            return None
+        c = list(tab.cols[op[1]])
+        c[op[2]] = vtok(mk_val(op[3]))
+        e["cols"][op[1]] = c
+        return e
+    if k == "addaf":
+        if op[1] in RESERVED:
+            return None
+        c = [vtok(mk_val(op[2]))] * n
+        e["cols"][op[1]] = c
+        e["ret"] = ("c", c)
+        return e
+    if k == "rev":
+        out = op[2] if op[2] is not None else op[1]
+        if op[1] not in tab.cols or out in RESERVED:
+            return None
+        e["cols"][out] = tab.cols[op[1]][::-1]
+        return e
+    if k == "expr":
+        lhs, ast = parse_expr(op[1])
+        if lhs is None or lhs in RESERVED or lhs.isdigit() or any(nm.startswith("#") for nm in tab.cols):
+            return None
+        if ast[0] == "name" and ast[1] in tab.cols:
+            e["cols"][lhs] = list(tab.cols[ast[1]])
+            return e
+        if ast[0] == "num" and str(ast[1]) not in tab.cols:
+            e["cols"][lhs] = [vtok(float(ast[1]))] * n
+            return e
+        return None
+    raise ValueError(k)
 
 
 # ------------------------------------------------------------------------------------------
@@ -212,6 +375,12 @@ class Tab:
         self.Y = [20.0 + 2 * i for i in range(n)]
         self.Z = [30.0 + 3 * i for i in range(n)]
         self.T = [1000.0 + i for i in range(n)]
+
+    def clone(self):
+        t = Tab(self.n)
+        t.cols = {k: list(v) for k, v in self.cols.items()}
+        t.X, t.Y, t.Z, t.T = list(self.X), list(self.Y), list(self.Z), list(self.T)
+        return t
 
     def read(self, name):
         """column read under a name as the documentation defines it (None = no such thing)"""
@@ -377,10 +546,19 @@ def eval_ast(tab, ast):
     return ("c", [f(q, l[1]) for q in r[1]])
 
 
+LIST_VOID = ("uvoid", "bvoid", "svoid", "ufn", "sk")     # families whose list form runs one execute per position
+LIST_REFUSED = ("sum", "aggf")                              # value-returning unary operators: the list form raises TypeError
+
+
 def op_targets(op):
     k = op[0]
+    if k == "list":
+        out = set()
+        for sub in op[1]:
+            out |= op_targets(sub)
+        return out
     if k in ("create", "update", "setitem", "remove", "setobs", "addaf"):
-        return {op[1]}
+        return {op[1]} if op[1] is not None else set()
     if k == "uvoid":
         return {op[3] if op[3] is not None else op[2]}
     if k == "bvoid":
@@ -448,6 +626,20 @@ def expected_(tab, op):
     e = {"cols": {}, "drop": set(), "coord": {}, "ret": "-", "scaled": False}
     if n == 0:
         return None                        # no observation: nothing can be written
+    if k == "list":
+        # list form of operate: for a void family one call per position, in order (documented: "arg2 = F(arg1)" for lists of
+        # names); for a value-returning operator the list form raises (TypeError): no expectation, nothing may change
+        if op[1][0][0] in LIST_REFUSED:
+            return None
+        t2 = tab.clone()
+        for sub in op[1]:
+            es = expected_(t2, sub)
+            if es is None:
+                return None
+            for nm, c in es["cols"].items():
+                t2.cols[nm] = c
+                e["cols"][nm] = c
+        return e
     if k in ("create", "setitem") and op[1] in RESERVED:
         return None
     if k in ("conv", "fft", "apply", "shiftc"):
@@ -607,9 +799,9 @@ def expected_(tab, op):
             if op[1] == "div":
                 if kv == 0:
                     raise Exc()
-                c = [_num(lambda p: p * (1.0 / kv))(p) for p in a]
+                c = [_num(lambda p: p / kv)(p) for p in a]             # a single division (fixes 5676890 / 2dd86ce)
             elif op[1] == "rdiv":
-                c = [_num(lambda p: (1.0 / p) * kv)(p) for p in a]
+                c = [_num(lambda p: kv / p)(p) for p in a]
             else:
                 c = shift_col(a, kv if op[1] == "shift" else -kv)
             e["ret"] = ("c", c)
@@ -739,7 +931,7 @@ def sim_names(case):
             names = [x for x in names if x != op[1]]
         elif k == "abscurv":
             names = [x for x in names if x != "ds"] + ([] if "abs_curv" in names else ["abs_curv"])
-        elif k in ("create", "setitem", "addaf", "uvoid", "bvoid", "svoid", "conv", "fft", "apply", "shiftc", "rev", "sk", "ufn", "seg", "estspeed"):
+        elif k in ("create", "setitem", "addaf", "uvoid", "bvoid", "svoid", "conv", "fft", "apply", "shiftc", "rev", "sk", "ufn", "seg", "estspeed", "list"):
             for t in tg:
                 if t not in names:
                     names.append(t)
@@ -777,10 +969,32 @@ class P(Prop):
         ("TracklibVerif.Props.C01", "TV.C01.short_list_refused", "createAnalyticalFeature(new name, list shorter than the track) raises IndexError and leaves the track exactly as it was"),
         ("TracklibVerif.Props.C01", "TV.C01.evaluate_no_new_name", "a name that is not listed, not a token of the expression and not a '#' name is not listed after the evaluation either"),
         ("TracklibVerif.Props.C01", "TV.C01.applyVoid_read_back", "when an APPLY-based operator (RECTIFIER SQRT DIODE SIGN EXP COS SIN TAN INVERSER ..., any cell function, which may raise mid-way) returns temp, the output feature reads exactly temp"),
-        ("TracklibVerif.Props.C01", "TV.C01.scalarKind_read_back", "the same for SCALAR_DIVIDER, SCALAR_REV_DIVIDER (two operators in a row), SHIFT_CIRCULAR(_REV) and the twelve plain scalar operators"),
+        ("TracklibVerif.Props.C01", "TV.C01.scalarKind_read_back", "the same for SCALAR_DIVIDER, SCALAR_REV_DIVIDER (single divisions in the create / loop / addListToAF form, fixes 5676890 / 2dd86ce), SHIFT_CIRCULAR(_REV) and the twelve plain scalar operators"),
         ("TracklibVerif.Props.C01", "TV.C01.agg_keeps_table", "the value-returning aggregates SUM AVG MIN MAX ARGMIN ARGMAX leave the whole table as it was, returning or raising"),
         ("TracklibVerif.Props.C01", "TV.C01.cell_read_agrees", "every read path returns the same values: for ANY name (feature called X, E, N, the empty string ..., coordinate, t, idx) getObsAnalyticalFeature(m, i) is the i-th element of getAnalyticalFeature(m) and changes nothing"),
         ("TracklibVerif.Props.C01", "TV.C01.carried_table_aligned", "a track handed a table with distinct names and full columns (copy, extract, slice, +) is aligned and carries exactly that table: all theorems apply to histories starting from it"),
+        ("TracklibVerif.Props.C01World", "TV.C01.heap_step_refines", "on a heap of Obs objects (tracks hold references; every loop of the API acts on the object found at each position, one after the other): for a track of pairwise distinct objects showing an aligned table every API call does exactly what it does on that table (same outcome, the track shows the resulting table), the track stays such a track, no object is added or dropped and every object outside the track is left as it was"),
+        ("TracklibVerif.Props.C01World", "TV.C01.heap_step_spec", "the same against the name -> column specification: all theorems above hold for tracks living on a heap"),
+        ("TracklibVerif.Props.C01World", "TV.C01.heap_history_refines", "along every finite history on such a track outcomes and shown tables are those of the history on the one-track table; every state is again such a track"),
+        ("TracklibVerif.Props.C01World", "TV.C01.heap_history_frame", "a history of API calls touches no object outside the track it is addressed to"),
+        ("TracklibVerif.Props.C01World", "TV.C01.other_track_unchanged", "a track that shares no object with the track a history is run on shows exactly the same table afterwards (names, every column and row, coordinates, timestamps), whatever the calls and their outcomes"),
+        ("TracklibVerif.Props.C01World", "TV.C01.copies_are_fresh", "[o.copy() for o in positions of a track] (Obs.copy() = deepcopy: extractSpanTime) makes new objects, one per position: the track made of them has pairwise distinct objects none of which belongs to an existing track, shows the rows / coordinates copied under the transmitted dict, is aligned; old objects untouched"),
+        ("TracklibVerif.Props.C01World", "TV.C01.span_track_independent", "the piece (extractSpanTime) and its parent are independent: any history on the piece leaves the table the parent shows as it was, any history on the parent leaves the table the piece shows as it was"),
+        ("TracklibVerif.Props.C01World", "TV.C01.ring_track_good", "t.loop(add=True) / t.addObs(t[i].copy()) / t.insertObs(t[i].copy(), p): the track is again a track of pairwise distinct objects, one observation longer, aligned, showing the old table with row i repeated at p - every theorem about histories applies to the ring"),
+        ("TracklibVerif.Props.C01World", "TV.C01.derive_span_is_copies", "the model of extractSpanTime (Sys.derive) builds its new track by copyEach over positions of the source with the source's dict (ties the driver's derivation to copies_are_fresh / span_track_independent)"),
+        ("TracklibVerif.Props.C01World", "TV.C01.derive_addCopy_is_insert", "the model of addObs / insertObs of an Obs.copy() inserts the object allocCopy made with pyInsert (ties the driver's derivation to ring_track_good)"),
+        ("TracklibVerif.Props.C01World", "TV.C01.derive_loopAdd_is_addCopy", "loop(add=True) is addObs(self[0].copy())"),
+        ("TracklibVerif.Props.C01Call", "TV.C01.call_refines", "every call of the API in any form - single, list form of a void operator family (operate(op, [in..], .., [out..]): one execute per position, stopped by the first exception or not), refused list form of a value-returning operator - keeps the table aligned and does exactly what it does on the name -> column specification"),
+        ("TracklibVerif.Props.C01Call", "TV.C01.heap_call_refines", "the same on a heap of Obs objects for a track of pairwise distinct objects; objects outside the track untouched"),
+        ("TracklibVerif.Props.C01Call", "TV.C01.call_frame", "no side effects for a call in any form, returning or raising: a name none of its positions designates reads as before and stays listed / unlisted"),
+        ("TracklibVerif.Props.C01Call", "TV.C01.list_form_is_history", "the list form is the history of its single calls cut after the first one that raises: same state, returns nothing when all return, else raises what that call raises"),
+        ("TracklibVerif.Props.C01Call", "TV.C01.call_keeps_listed", "nothing disappears behind the caller's back: a call in any form that is not a deleting call (remove / '#DELETE', computeAbsCurv, operate(str)) unlists nothing, returning or raising - an operator failing mid-way with an existing output feature included (what the seeded change C01-9 broke)"),
+        ("TracklibVerif.Props.C01Front", "TV.C01.createFront_is_create", "createAnalyticalFeature(name, v) hands v itself to the table primitive - the default 0.0 only when no second argument is given; name=None does nothing"),
+        ("TracklibVerif.Props.C01Front", "TV.C01.createFront_reads_value", "createAnalyticalFeature(new name, v) for EVERY cell value v (any type V of values: None, bool, str, numpy scalars ... - what the seeded change C01-11 broke): the name reads v at every observation, every other name reads as before"),
+        ("TracklibVerif.Props.C01Front", "TV.C01.bracket_reads_value", "track[name] = v for every value v other than '#DELETE', new name (create path) or listed name (update path) alike: the name reads exactly the values given, every other name reads as before"),
+        ("TracklibVerif.Props.C01Front", "TV.C01.bracket_delete_is_remove", "track[name] = '#DELETE' is removeAnalyticalFeature(name)"),
+        ("TracklibVerif.Props.C01Front", "TV.C01.fcall_refines", "a call that goes through the front ends (default argument, name=None, '#DELETE') keeps the table aligned and does what it does on the name -> column specification"),
+        ("TracklibVerif.Props.C01World", "TV.C01.derive_copy_is_copies", "Track.copy() (deepcopy with its memo) of a track of pairwise distinct objects makes one new object per position, like the copies above"),
     ]
     partial = []
     open_statements = [
@@ -789,27 +1003,44 @@ class P(Prop):
         "where results are written and that nothing else moves; expression values are property C02's; here they are covered by the correspondence "
         "(model at Float with CPython's float_rem / float_pow / math functions) and by the oracle's direct recomputation",
         "read-back of the result of an '=' expression under its left-hand side is proved only through the refinement (the specification table runs the "
-        "same stack machine), not as a closed formula",
+        "same stack machine), not as a closed formula; likewise that a re-assignment `a=<expr>` (get / remove / create) leaves `a` listed, and that "
+        "operate(str) and computeAbsCurv unlist only '#' names / 'ds' among the names they designate, is not proved (call_keeps_listed covers every "
+        "call that is not one of the three deleting ones; the oracle checks it for all calls)",
         "assignment to 't' (timestamps replaced by floats), 'timestamp' as an operand, the FILTER operator '!' between two features, D2 and the order-statistic "
         "functions in expressions, a complex result of ** , and tables that are already misaligned are outside the model (the driver answers "
         "'unsupported' and the rest of that history is not compared)",
-        "the list forms of operate (lists of input / output names) are not modelled: for the non-void and scalar families they raise TypeError "
-        "(`range(output)` on a list) before touching the table",
-        "sharing of Obs objects between a track and the tracks derived from it by extract / slice / + is outside the model (one track = one table): "
-        "the oracle observes it (finding derived-track-shares-observations)",
+        "list forms of operate: modelled for the void families (one execute per position) and for the value-returning unary operators (TypeError from "
+        "`range(output)` on a list, before anything is touched); NOT modelled: lists of different lengths (the `raise OperatorError` is in fact a NameError: "
+        "the name is not imported in track.py - nothing is touched either way), the list form of the scalar non-void family (AGGREGATE), lists mixing None outputs",
+        "tracks that SHARE Obs objects (extract / slice / + hand over the objects themselves; one object referenced at two positions of a track): the heap "
+        "model (Model/FeaturesWorld.lean) runs them and the correspondence compares every track of the session, but the theorems need pairwise distinct "
+        "objects within the track and, for 'the other track is unchanged', disjoint tracks - for shared objects alignment does fail (finding "
+        "derived-track-shares-observations; Props/C01World.lean shows the failing states as examples)",
+        "cell values of any type: the theorems are for every type V of values and every interpretation of the arithmetic, so they cover None, bool, str, "
+        "numpy scalars ... as cell values; that the Python write paths really hand the object given to the table (no conversion, no sentinel: what the seeded "
+        "change C01-11 broke) is checked by the correspondence at V := String (stream 'vals', calls that only move values) and by the oracle, and proved "
+        "for the modelled front ends (Props/C01Front.lean); arithmetic ON non-numbers (None + 1 raises TypeError mid-way) is not run against the model - "
+        "the theorems cover it as 'the cell function raises'; object values carried through copy / extract / + are not generated",
+        "the copying derivations are proved at the level of the object references (Obs.copy() = a new object equal to the old one); that copy.deepcopy "
+        "really copies the features list is what the seeded change C01-7 broke: it is checked by the correspondence with the heap model and by the oracle, not proved",
     ]
     modelled = ("Track.createAnalyticalFeature / updateAnalyticalFeature / removeAnalyticalFeature / getAnalyticalFeature / "
                 "getObsAnalyticalFeature / setObsAnalyticalFeature / hasAnalyticalFeature / addAnalyticalFeature / __setitem__ / "
                 "setX|Y|ZFromAnalyticalFeature / operate (operator objects and str, with the purge incl. af[0] on the empty name) / "
                 "__applyOperation (= + - * / ^ % < > & $ @ ; '!' only its KeyError forms) / __evaluateRPN / "
-                "__evaluate (on the RPN token list) of core/track.py; utils.addListToAF; Integrator, Differentiator, Adder, "
+                "__evaluate (on the RPN token list) of core/track.py; the list forms of operate for the void operator families and for the value-returning "
+                "unary operators (Model/FeaturesCall.lean); utils.addListToAF; Integrator, Differentiator, Adder, "
                 "Substracter, Multiplier, Divider, Power, Modulo, Above, Below, ScalarAdder, ScalarSubstracter, ScalarRevSubstracter, ScalarMuliplier, "
                 "ScalarPower, ScalarRevPower, ScalarModulo, ScalarRevModulo, ScalarAbove, ScalarBelow, ScalarRevAbove, ScalarRevBelow, ScalarDivider, "
                 "ScalarRevDivider, Inverser, ShiftCircular, ShiftCircularRev, Apply and Rectifier / Sqrt / Diode / Sign / Exp / Cos / Sin / Tan, Log, "
                 "Sum, Averager, Min, Max, Argmin, Argmax, Reverser of core/operators.py; cinematics.computeAbsCurv, estimate_speed "
                 "(analytics.ds, speed), segmentation.segmentation (one feature, one threshold); the table a track receives from copy / extract / slice / +; "
+                "on a heap of Obs objects (Model/FeaturesWorld.lean: a track = references + dict, every primitive of the API as a loop over the objects found at the positions): "
+                "Track.copy, extract, __getitem__(slice), __add__, extractSpanTime, loop(add=True), addObs / insertObs of Obs.copy(), Obs.copy; "
                 "table effect only (values opaque) of Convolution, Filter_FFT, Square, Inverter, ShiftCircular (object form) and of the non-void "
-                "Min, Argmax, Zeros, Median, Aggregate, Equal")
+                "Min, Argmax, Zeros, Median, Aggregate, Equal; "
+                "the argument handling of createAnalyticalFeature (default val_init, name=None) and of __setitem__ ('#DELETE') (Model/FeaturesFront.lean), run at "
+                "V := String (one token per Python object: None, bool, int, float, str, numpy scalars, complex, bytes) for the calls that only move values")
     trusted = ["operators with opaque values (CONVOLUTION, FILTER_FFT - numpy results -, SQUARE, INVERTER, SHIFT_CIRCULAR object form): the model is handed the list the "
                "implementation returned and models where it is written; the oracle recomputes the values from the operator's definition (direct sums, no FFT) "
                "and checks that every stored cell is one number",
@@ -818,6 +1049,12 @@ class P(Prop):
                "is involved), so a parser defect shows up here as a disagreement",
                "addAnalyticalFeature: the model writes through the name at every index (Python hoists the index lookup); the algorithms used are read-only",
                "Float instances of the arithmetic in the driver (Drv/C01.lean: exact fmod by integer arithmetic, CPython's float_rem / float_pow rules, libm functions)",
+               "heap model (world sessions): in states where WHICH value a name reads depends on where the columns sit in the observations - a track that shares its "
+               "observations with a derived track after calls on that track, the sum of two tracks whose listings differ only in order, a sum that starts misaligned "
+               "(both inside the known-finding classes) - outcome, listed names, values per observation and coordinates are compared, not the column values",
+               "stream 'vals' (model at V := String): a Python object is identified with its token - numbers by value (True = 1 = 1.0 = np.float64(1): the type of a "
+               "number is not compared), NaN as one token, a str by its characters, any other object (None, complex, bytes) by type name and repr; `add sub mul` of that "
+               "instance are never reached by the calls admitted there",
                "never generated: 'timestamp' as an operand, assignment to 't', '!' , NaN thresholds of segmentation, CONVOLUTION / FILTER_FFT in the same history as "
                "the operators whose Python arithmetic raises (numpy scalars stored by the former never raise)"]
     rule = ("histories of API calls on tracks of 0..5 observations, values small integers (as floats) and NaN; after EVERY call: listed names, every column, every "
@@ -827,8 +1064,17 @@ class P(Prop):
             "capitals and near-misses of the reserved names, prefixes, digits, '#', non-ASCII, blanks, operator and separator characters, built-in names ds abs_curv speed, the "
             "empty string) used as user features through every write path; 'rich': operator objects of every family (binary / scalar / unary void incl. those whose arithmetic "
             "raises mid-way, value-returning aggregates, computeAbsCurv, estimate_speed, segmentation) and expressions with / ^ % < > >> << and function calls; 'carry': a track built "
-            "by copy / extract / slice / + from a track with features, then a history on it, the source tracks observed before and after; 'short': a list initialiser shorter than the track in the middle of a history (refused / partial overwrite), also sprinkled in every stream; "
-            "empty track. A call that raises although all its operands exist and it is well formed is a failure; "
+            "by copy / extract / slice / + / extractSpanTime (bounds in either order or given as a track) / loop(add=True) / addObs or insertObs of an Obs.copy() (t[i], getObs, getFirstObs, getLastObs) "
+            "from a track with 0..5 earlier calls, then a history on it, then (copy, extractSpanTime) a history on the source again, all tracks observed before and after and the whole session replayed on the heap model; 'short': a list initialiser shorter than the track in the middle of a history (refused / partial overwrite), also sprinkled in every stream; "
+            "list forms of operate (1-3 positions, with / without output names, every void family; SUM / aggregates refused) sprinkled in every random stream; "
+            "'vals': every history of length 2 (thorough: 3) over a 14-call alphabet and random histories to depth 25 of the calls that only MOVE values (create with / without "
+            "second argument / name=None, update, bracket assignment, setObs in three forms, both deletes, a constant algorithm, REVERSER, the copy lhs=rhs) with cell values "
+            "None, True/False, ints beyond 2**64, floats, NaN, inf, strings ('' '#0' 'x' '0.0' 'None' non-ASCII), numpy float64/float32/int32/bool_, complex, bytes - read back "
+            "through every path and compared by VALUE (numbers: ==, so the number's type is free; other objects: type and repr); "
+            "empty track. A call that raises although all its operands exist and it is well formed is a failure; a call the oracle has no expectation for "
+            "(it raised, or its arithmetic is out of the oracle's scope) may have written or created its target, nothing else, and may not have unlisted it "
+            "unless it is remove / '#DELETE' of that name, a '#' name under operate(str), or 'ds' under computeAbsCurv; an observation point that raises is a "
+            "failure, an exception of the harness's own plumbing is a harness error; a derivation (copy / extract / + ...) that raises is not judged; "
             "non-trivial = the history deletes (remove, '#DELETE' or re-assignment by an expression) a column that is not the last one while other features are listed")
 
     # ---------------------------------------------------------------- setup
@@ -874,8 +1120,11 @@ class P(Prop):
 
     def exhaustive_scopes(self, tier):
         d = 4 if tier == "thorough" else 3
+        dv = 3 if tier == "thorough" else 2
         return ["every history of length %d over the %d-call alphabet P.ALPHABET on a track of 2 observations (%d histories, observed after every call)"
-                % (d, len(self.ALPHABET), len(self.ALPHABET) ** d)]
+                % (d, len(self.ALPHABET), len(self.ALPHABET) ** d),
+                "every history of length %d over the %d-call alphabet P.VALPHABET (cell values None / bool / str / int / float, every write path) on a track "
+                "of 2 observations (%d histories, observed after every call)" % (dv, len(self.VALPHABET), len(self.VALPHABET) ** dv)]
 
     NAMES = ["a", "b", "c", "#0", "#u"]
     # every name an accessor could treat specially, and names that stress the name -> column map and the protocol:
@@ -999,7 +1248,37 @@ class P(Prop):
     SKINDS = ["add", "sub", "rsub", "mul"]
     SKINDS_RICH = ["add", "sub", "rsub", "mul", "pow", "rpow", "mod", "rmod", "above", "below", "rabove", "rbelow"]
 
+    def rand_list_op(self, rng, n):
+        """a list form of operate: lists of input / output names, one operator"""
+        m = rng.choice([1, 2, 2, 3])
+        fam = rng.choice(["uvoid", "bvoid", "svoid", "ufn", "sk", "sum", "aggf"] if self.rich else ["uvoid", "bvoid", "svoid", "sum"])
+        with_out = rng.random() < 0.6
+        out = (lambda: self.rand_name(rng, True)) if with_out else (lambda: None)
+        if fam == "uvoid":
+            kind = rng.choice(["int", "dif"])
+            subs = [["uvoid", kind, self.rand_in(rng), out()] for _ in range(m)]
+        elif fam == "bvoid":
+            kind = rng.choice(self.BKINDS_RICH if self.rich else self.BKINDS)
+            subs = [["bvoid", kind, self.rand_in(rng), self.rand_in(rng), out()] for _ in range(m)]
+        elif fam == "svoid":
+            kind, v = rng.choice(self.SKINDS_RICH if self.rich else self.SKINDS), self.rand_val(rng)
+            subs = [["svoid", kind, self.rand_in(rng), v, out()] for _ in range(m)]
+        elif fam == "ufn":
+            f = rng.choice(VOID_FN)
+            subs = [["ufn", f, self.rand_in(rng), out()] for _ in range(m)]
+        elif fam == "sk":
+            kind, v = rng.choice(["div", "rdiv", "shift", "shiftr"]), self.rand_val(rng)
+            subs = [["sk", kind, self.rand_in(rng), v, out()] for _ in range(m)]
+        elif fam == "sum":
+            subs = [["sum", self.rand_in(rng)] for _ in range(m)]
+        else:
+            f = rng.choice(AGG_FN)
+            subs = [["aggf", f, self.rand_in(rng)] for _ in range(m)]
+        return ["list", subs]
+
     def rand_op(self, rng, n):
+        if rng.random() < 0.035:
+            return self.rand_list_op(rng, n)
         r = rng.random()
         if self.rich and r < 0.30:
             # the wider alphabet: operator objects of every family, helpers that create features
@@ -1086,6 +1365,57 @@ class P(Prop):
         finally:
             self.pool, self.rich = None, False
 
+    # ---- the "vals" stream: histories of the calls that only MOVE values (create / update / bracket assignment / setObs / delete /
+    # a constant algorithm / REVERSER / the copy `lhs=rhs`), the values being arbitrary Python objects (VAL_POOL)
+    VNAMES = ["a", "b", "c", "d"]
+    VALPHABET = [
+        ["create", "a", "s", ["none"]], ["create", "b", "s", ["str", "s"]], ["create", "a", "d"], ["create", "c", "l", [["none"], ["bool", True]]],
+        ["setitem", "a", "s", ["none"]], ["setitem", "b", "s", ["float", "0.1"]], ["setitem", "b", "l", [["int", "3"], ["none"]]],
+        ["update", "a", "s", ["bool", False]], ["remove", "a", "m"], ["remove", "b", "b"],
+        ["setobs", "a", 1, ["none"], "b"], ["addaf", "c", ["none"], "m"], ["rev", "b", None], ["expr", "c=a", "m"],
+    ]
+
+    def rand_vval(self, rng):
+        return rng.choice(VAL_POOL)
+
+    def rand_varg(self, rng, n):
+        if rng.random() < 0.55:
+            return ["s", self.rand_vval(rng)]
+        extra = rng.choice([0, 0, 0, 1]) if (n == 0 or rng.random() < 0.93) else -rng.randrange(1, n + 1)   # sometimes too short
+        return ["l", [self.rand_vval(rng) for _ in range(n + extra)]]
+
+    def rand_vop(self, rng, n):
+        def name(special=True):
+            r = rng.random()
+            if r < 0.9 or not special:
+                return rng.choice(self.VNAMES if r < 0.8 else ["a", "zz"])
+            return rng.choice(["x", "idx", "t", "timestamp"])
+        r = rng.random()
+        if r < 0.22:
+            nm = None if rng.random() < 0.03 else name()
+            if rng.random() < 0.1:
+                return ["create", nm, "d"]
+            return ["create", nm] + self.rand_varg(rng, n)
+        if r < 0.42:
+            return ["setitem", name()] + self.rand_varg(rng, n)
+        if r < 0.53:
+            return ["update", name()] + self.rand_varg(rng, n)
+        if r < 0.65:
+            return ["remove", name(), rng.choice("mb")]
+        if r < 0.77:
+            i = rng.randrange(0, n) if (n > 0 and rng.random() < 0.93) else n
+            return ["setobs", name(False), i, self.rand_vval(rng), rng.choice("mbr")]
+        if r < 0.84:
+            return ["addaf", name(False), self.rand_vval(rng), rng.choice("mb")]
+        if r < 0.91:
+            return ["rev", name(False), rng.choice([None, None] + self.VNAMES)]
+        lhs = rng.choice(self.VNAMES)
+        rhs = rng.choice(self.VNAMES + self.VNAMES + [lhs, "3", "nosuch"])
+        return ["expr", lhs + "=" + rhs, rng.choice("mmg")]
+
+    def gen_vals(self, rng, n, depth):
+        return {"kind": "vals", "n": n, "ops": [self.rand_vop(rng, n) for _ in range(depth)]}
+
     def cases(self, rng, tier):
         out = []
         A = self.ALPHABET
@@ -1115,7 +1445,7 @@ class P(Prop):
             depth = rng.choice([2, 4, 8, 14, 25])
             out.append({"kind": "rich", "n": n, "pool": ["a", "b", "c"], "ops": self.gen_history(rng, n, depth, ["a", "b", "c"], True)})
         # tracks that receive their table from another track: copy(), extract, slice, +
-        for _ in range(900 if q else 5000):
+        for _ in range(1400 if q else 8000):
             out.append(self.gen_carry(rng))
         # a list initialiser shorter than the track in the middle of a history: refused (IndexError) before anything is
         # written when the name is new (fix 2976f2b), a partial overwrite of an existing feature otherwise
@@ -1126,25 +1456,70 @@ class P(Prop):
             ops.append([rng.choice(["create", "update", "setitem"]), rng.choice(["a", "b", "c"]), "l", short])
             ops += self.gen_history(rng, n, rng.choice([1, 3]), None, False)
             out.append({"kind": "short", "n": n, "ops": ops})
+        # cell values that are arbitrary Python objects (None, bool, str, numpy scalars, big ints ...): every history of length 2
+        # (thorough: 3) over P.VALPHABET, then random ones
+        def recv(prefix, k):
+            if k == 0:
+                out.append({"kind": "vals", "n": 2, "ops": prefix})
+                return
+            for op in self.VALPHABET:
+                recv(prefix + [op], k - 1)
+        recv([], 2 if q else 3)
+        for _ in range(1200 if q else 12000):
+            out.append(self.gen_vals(rng, rng.choice([0, 1, 2, 2, 3, 3, 4]), rng.choice([2, 4, 8, 14, 25])))
         # empty track
         for _ in range(100 if q else 1000):
             out.append({"kind": "empty", "n": 0, "ops": self.gen_history(rng, 0, rng.choice([1, 3, 6]), None, rng.random() < 0.3)})
         return out
 
-    def gen_carry(self, rng):
-        n = rng.choice([2, 3, 3, 4, 5])
-        pool = ["a", "b", "c"] if rng.random() < 0.7 else self.rand_pool(rng)
-        rich = rng.random() < 0.3          # one alphabet for the whole case: numpy-valued operators and raising arithmetic stay apart
-        pre = self.gen_history(rng, n, rng.choice([1, 2, 3, 5]), pool, rich)
+    # how a track receives its observations / its table from another one (the "carry" stream):
+    #   copy / extract / slice / plus     Track.copy(), extract(i, j), t[i:j], t + t2
+    #   span                              t.extractSpanTime(...): the observations are COPIES (Obs.copy()), the table is transmitted
+    #   loop                              t.loop(add=True): the track itself, closed into a ring with a copy of its first observation
+    #   addcopy                           t.addObs(o.copy()) / t.insertObs(o.copy(), pos) with o an observation of t: the same idiom by hand
+    SAME_OBJECT = ("loop", "addcopy")     # the derived track is the source track itself, one observation longer
+    INDEPENDENT = ("copy", "span")        # every observation of the derived track is a copy: the two tracks are independent afterwards
+
+    @staticmethod
+    def carry_selection(c, n):
+        """indices of the source's observations that make the derived track, in order (the second operand of + comes after them)"""
+        if c[0] in ("copy", "plus"):
+            return list(range(n))
+        if c[0] == "extract":
+            return list(range(c[1], c[2] + 1))
+        if c[0] == "slice":
+            return list(range(c[1], c[2]))
+        if c[0] == "span":
+            return list(range(min(c[1], c[2]), max(c[1], c[2]) + 1))
+        if c[0] == "loop":
+            return list(range(n)) + [0]
+        if c[0] == "addcopy":
+            sel = list(range(n))
+            sel.insert(n if c[2] is None else c[2], c[1])
+            return sel
+        raise ValueError(c)
+
+    def rand_carry(self, rng, n, pre, pool, rich):
+        """one way of making a track from a track of n observations that went through the calls `pre`"""
         r = rng.random()
-        if r < 0.25:
+        if r < 0.18:
             carry = ["copy"]
-        elif r < 0.5:
+        elif r < 0.36:
             i = rng.randrange(0, n)
             carry = ["extract", i, rng.randrange(i, n)]
-        elif r < 0.7:
+        elif r < 0.50:
             i = rng.randrange(0, n)
             carry = ["slice", i, rng.randrange(i + 1, n + 1)]
+        elif r < 0.62:
+            # the piece is made of copies of the observations; the bounds in either order, or given as a track
+            i, j = rng.randrange(0, n), rng.randrange(0, n)
+            carry = ["span", i, j, "trk" if (i <= j and rng.random() < 0.25) else "ts"]
+        elif r < 0.70:
+            carry = ["loop"]
+        elif r < 0.80:
+            how = rng.choice("ogfl")       # t[i], t.getObs(i), t.getFirstObs(), t.getLastObs()
+            i = 0 if how == "f" else n - 1 if how == "l" else rng.randrange(0, n)
+            carry = ["addcopy", i, None if rng.random() < 0.6 else rng.randrange(0, n + 1), how]
         else:
             # t + t2 where t2 went through the same calls (same feature list) or, rarely, through others
             m = rng.choice([1, 2, 3])
@@ -1152,18 +1527,33 @@ class P(Prop):
             def resize(op):
                 if op[0] in ("create", "update", "setitem") and op[2] == "l":
                     return op[:3] + [(list(op[3]) * (m + 1) + [1] * (m + 1))[:m + max(0, len(op[3]) - n)]]
+                if op[0] == "fft" and op[2] > m:
+                    return ["fft", op[1], 1, op[3]]          # a kernel no longer than the second operand
                 return op
             if rng.random() < 0.85:
                 carry = ["plus", m, [resize(op) for op in pre], "same"]
             else:
                 carry = ["plus", m, self.gen_history(rng, m, rng.choice([0, 1, 2]), pool, rich), "other"]
-        dn = {"copy": n, "extract": carry[2] - carry[1] + 1 if carry[0] == "extract" else 0,
-              "slice": carry[2] - carry[1] if carry[0] == "slice" else 0, "plus": n + (carry[1] if carry[0] == "plus" else 0)}[carry[0]]
+        return carry
+
+    def gen_carry(self, rng):
+        n = rng.choice([2, 3, 3, 4, 5])
+        pool = ["a", "b", "c"] if rng.random() < 0.7 else self.rand_pool(rng)
+        rich = rng.random() < 0.3          # one alphabet for the whole case: numpy-valued operators and raising arithmetic stay apart
+        pre = self.gen_history(rng, n, rng.choice([0, 1, 2, 3, 5]), pool, rich)
+        carry = self.rand_carry(rng, n, pre, pool, rich)
+        dn = len(self.carry_selection(carry, n)) + (carry[1] if carry[0] == "plus" else 0)
         ops = self.gen_history(rng, dn, rng.choice([1, 2, 4, 8]), pool, rich)
-        return {"kind": "carry", "n": n, "pool": pool, "pre": pre, "carry": carry, "ops": ops}
+        case = {"kind": "carry", "n": n, "pool": pool, "pre": pre, "carry": carry, "ops": ops}
+        if carry[0] in self.INDEPENDENT and rng.random() < 0.6:
+            # the source stays in use next to the derived track: calls on it afterwards
+            case["post"] = self.gen_history(rng, n, rng.choice([1, 2, 4]), pool, rich)
+        return case
 
     def describe(self, case):
         t = {"kind": case["kind"], "n": case["n"], "depth": len(case["ops"])}
+        if case["kind"] == "carry":
+            t["carry"] = case["carry"][0] + ("+post" if case.get("post") else "")
         if case["kind"] == "rand":
             for op in case["ops"][:1]:
                 t["first_op"] = op[0]
@@ -1287,6 +1677,22 @@ class P(Prop):
             if op[2] == "g":
                 return t[op[1]]
             return t.operate(op[1])
+        if k == "list":
+            subs = op[1]
+            f = subs[0][0]
+            if f == "sum":
+                return t.operate(self.Operator.SUM, [x[1] for x in subs])
+            if f == "aggf":
+                return t.operate(self.AGGOPS[subs[0][1]], [x[2] for x in subs])
+            oper = {"uvoid": self.UOPS, "bvoid": self.BOPS, "svoid": self.SOPS, "ufn": self.FNOPS, "sk": self.SKOPS}[f][subs[0][1]]
+            ins = [x[2] for x in subs]
+            outs = [x[-1] for x in subs]
+            tail = [] if outs[0] is None else [outs]
+            if f in ("uvoid", "ufn"):
+                return t.operate(oper, ins, *tail)
+            if f == "bvoid":
+                return t.operate(oper, ins, [x[3] for x in subs], *tail)
+            return t.operate(oper, ins, fv(subs[0][3]), *tail)
         raise ValueError(k)
 
     @staticmethod
@@ -1307,6 +1713,18 @@ class P(Prop):
     ROUTED = set("+-/*^><()='{")       # '{' since fix 396f8f9
 
     def observe(self, t):
+        """the observation points of the property (listed names, every read path, len(obs.features), X/Y/Z/T). One of them
+        raising is recorded in the observation (`observe_err`) and judged by the oracle as what it is - the track cannot be
+        read -, it does not abort the run of the history"""
+        try:
+            return self.observe_(t)
+        except BaseException as e:
+            if isinstance(e, KeyboardInterrupt):
+                raise
+            return {"names": [], "cols": {}, "rowlens": [], "bad_cells": [], "X": [], "Y": [], "Z": [], "T": [], "cells_ok": True,
+                    "observe_err": "%s (%s)" % (self.err_of(e), str(e)[:120])}
+
+    def observe_(self, t):
         names = list(t.getListAnalyticalFeatures())
         cols = {}
         cells_ok = True
@@ -1389,36 +1807,199 @@ class P(Prop):
             return t.extract(c[1], c[2])
         if c[0] == "slice":
             return t[c[1]:c[2]]
+        if c[0] == "span":
+            if c[3] == "trk":
+                return t.extractSpanTime(t[c[1]:c[2] + 1])
+            return t.extractSpanTime(t[c[1]].timestamp, t[c[2]].timestamp)
+        if c[0] == "loop":
+            t.loop(add=True)
+            return t
+        if c[0] == "addcopy":
+            o = {"o": lambda: t[c[1]], "g": lambda: t.getObs(c[1]), "f": t.getFirstObs, "l": t.getLastObs}[c[3]]()
+            if c[2] is None:
+                t.addObs(o.copy())
+            else:
+                t.insertObs(o.copy(), c[2])
+            return t
         t2 = self.Track([], 1)
         for i in range(c[1]):
             t2.addObs(self.Obs(self.ENU(50.0 + i, 60.0 + 2 * i, 70.0 + 3 * i), self.ObsTime.readUnixTime(2000 + i)))
-        for op in c[2]:
-            try:
-                self.call(t2, op)
-            except BaseException as e:
-                if isinstance(e, KeyboardInterrupt):
-                    raise
+        self._t2_steps = self.run_ops(t2, c[2])
         self._t2 = t2
         return t + t2
 
+    # ---- the vals stream on the implementation
+    def call_v(self, t, op):
+        k = op[0]
+        if k == "create":
+            if op[2] == "d":
+                return t.createAnalyticalFeature(op[1])
+            return t.createAnalyticalFeature(op[1], self.mk_varg(op[2], op[3]))
+        if k == "update":
+            return t.updateAnalyticalFeature(op[1], self.mk_varg(op[2], op[3]))
+        if k == "setitem":
+            t[op[1]] = self.mk_varg(op[2], op[3])
+            return None
+        if k == "remove":
+            if op[2] == "b":
+                t[op[1]] = "#DELETE"
+                return None
+            return t.removeAnalyticalFeature(op[1])
+        if k == "setobs":
+            v = mk_val(op[3])
+            if op[4] == "b":
+                t[op[1], op[2]] = v
+            elif op[4] == "r":
+                t[op[2], op[1]] = v
+            else:
+                t.setObsAnalyticalFeature(op[1], op[2], v)
+            return None
+        if k == "addaf":
+            v = mk_val(op[2])
+            f = lambda trk, i: v
+            if op[3] == "b":
+                t[op[1]] = f
+                return "-"
+            return t.addAnalyticalFeature(f, op[1])
+        if k == "rev":
+            O = self.Operator
+            return t.operate(O.REVERSER, op[1]) if op[2] is None else t.operate(O.REVERSER, op[1], op[2])
+        if k == "expr":
+            if op[2] == "g":
+                return t[op[1]]
+            return t.operate(op[1])
+        raise ValueError(k)
+
+    @staticmethod
+    def mk_varg(kind, val):
+        return mk_val(val) if kind == "s" else [mk_val(v) for v in val]
+
+    def observe_v(self, t):
+        """the observation points of the property with every value as a token (vtok): any Python object is a legitimate cell value"""
+        try:
+            names = list(t.getListAnalyticalFeatures())
+            cols = {}
+            cells_ok = True
+            for nm in names:
+                try:
+                    c = [vtok(v) for v in t.getAnalyticalFeature(nm)]
+                    cols[nm] = c
+                    for i in range(len(c)):
+                        got = [vtok(t.getObsAnalyticalFeature(nm, i)), vtok(t[nm, i]), vtok(t[i, nm]), vtok(t.getObsAnalyticalFeatures([nm], i)[0])]
+                        if any(g != c[i] for g in got):
+                            cells_ok = "cell %d of %r: column read %r, per-observation reads %r" % (i, nm, c[i], got)
+                            break
+                    if [vtok(v) for v in t.getAnalyticalFeatures([nm])[0]] != c:
+                        cells_ok = "getAnalyticalFeatures([%r]) differs from getAnalyticalFeature" % nm
+                    if nm and nm == nm.strip() and not (set(nm) & self.ROUTED):
+                        if [vtok(v) for v in t[nm]] != c:
+                            cells_ok = "track[%r] differs from getAnalyticalFeature" % nm
+                    if not t.hasAnalyticalFeature(nm):
+                        cells_ok = "hasAnalyticalFeature(%r) is False for a listed name" % nm
+                except BaseException as e:
+                    cols[nm] = self.err_of(e)
+            return {"names": names, "cols": cols, "rowlens": [len(o.features) for o in t.getObsList()], "bad_cells": [],
+                    "X": [vtok(v) for v in t.getX()], "Y": [vtok(v) for v in t.getY()], "Z": [vtok(v) for v in t.getZ()],
+                    "T": [vtok(v) for v in t.getT()], "cells_ok": cells_ok}
+        except BaseException as e:
+            if isinstance(e, KeyboardInterrupt):
+                raise
+            return {"names": [], "cols": {}, "rowlens": [], "bad_cells": [], "X": [], "Y": [], "Z": [], "T": [], "cells_ok": True,
+                    "observe_err": "%s (%s)" % (self.err_of(e), str(e)[:120])}
+
+    def run_vops(self, t, ops):
+        steps = []
+        for op in ops:
+            self.vop_token(op)             # a malformed case (value spec, op layout) raises HERE: a harness error, not an exception of the call
+            try:
+                r = self.call_v(t, op)
+                out = "ok"
+                if r is None or isinstance(r, str):
+                    ret = "-"
+                elif isinstance(r, (list, tuple, np.ndarray)):
+                    ret = ["c", [vtok(v) for v in r]]
+                else:
+                    ret = ["n", vtok(r)]
+            except BaseException as e:
+                if isinstance(e, KeyboardInterrupt):
+                    raise
+                out, ret = self.err_of(e), "-"
+            ob = self.observe_v(t)
+            ob["out"], ob["ret"] = out, ret
+            steps.append(ob)
+        return steps
+
+    def vop_token(self, op):
+        k = op[0]
+        o = lambda x: enc(x) if x is not None else ""
+        arg = lambda kind, val: "%s:%s" % (kind, vtok(mk_val(val)) if kind == "s" else (",".join(vtok(mk_val(v)) for v in val) or "_"))
+        if k == "create":
+            nm = "!" if op[1] is None else enc(op[1])
+            return "create:%s:d" % nm if op[2] == "d" else "create:%s:%s" % (nm, arg(op[2], op[3]))
+        if k in ("update", "setitem"):
+            return "%s:%s:%s" % (k, enc(op[1]), arg(op[2], op[3]))
+        if k == "remove":
+            # the bracket form `t[name] = "#DELETE"` goes through the model's front end of __setitem__
+            return "remove:%s" % enc(op[1]) if op[2] == "m" else "setitem:%s:s:%s" % (enc(op[1]), DELETE_TOK)
+        if k == "setobs":
+            return "setobs:%s:%d:%s" % (enc(op[1]), op[2], vtok(mk_val(op[3])))
+        if k == "addaf":
+            return "addaf:%s:const:%s" % (enc(op[1]), vtok(mk_val(op[2])))
+        if k == "rev":
+            return "rev:%s:%s" % (enc(op[1]), o(op[2]))
+        if k == "expr":
+            return "expr:" + ",".join(t if (t == "=" or t.isdigit() and t.isascii()) else enc(t) for t in expr_rpn(op[1]))
+        raise ValueError(k)
+
+    @staticmethod
+    def parse_block_v(b):
+        f = b.split("~")
+        if len(f) != 9:
+            raise ValueError("bad block %r" % b[:80])
+
+        def toks(s):
+            return [] if s == "_" else s.split(",")
+        names = [] if f[2] == "_" else [dec(x) for x in f[2].split(",")]
+        colstr = [] if f[3] == "_" else f[3].split(";")
+        if len(names) == 1 and f[3] == "_":
+            colstr = ["_"]
+        cols = {}
+        for nm, cs in zip(names, colstr):
+            cols[nm] = cs if cs.startswith("err") or cs == "unsupported" else toks(cs)
+        ret = "-" if f[1] == "-" else ["n", f[1][1:]] if f[1][0] == "n" else ["c", toks(f[1][1:])]
+        return {"out": f[0], "ret": ret, "names": names, "cols": cols,
+                "rowlens": [] if f[4] == "_" else [int(x) for x in f[4].split(",")],
+                "X": toks(f[5]), "Y": toks(f[6]), "Z": toks(f[7]), "T": toks(f[8])}
+
     def impl(self, case):
         t = self.mk_track(case["n"])
+        if case["kind"] == "vals":
+            return {"steps": self.run_vops(t, case["ops"])}
         if case["kind"] == "carry":
             pre = self.run_ops(t, case["pre"])
             self._t2 = None
+            src_pre = self.observe(t)          # the source as it is when the derivation is made
             try:
                 d = self.derive(case, t)
             except BaseException as e:
                 if isinstance(e, KeyboardInterrupt):
                     raise
-                return {"pre": pre, "carry_err": self.err_of(e), "steps": []}
+                return {"pre": pre, "src_pre": src_pre, "carry_err": self.err_of(e), "steps": []}
+            same = d is t
             src0 = self.observe(t)
             other0 = self.observe(self._t2) if self._t2 is not None else None
             first = self.observe(d)
             steps = self.run_ops(d, case["ops"])
-            res = {"pre": pre, "first": first, "steps": steps, "src_before": src0, "src_after": self.observe(t),
+            res = {"pre": pre, "src_pre": src_pre, "first": first, "steps": steps, "src_before": src0, "src_after": self.observe(t),
                    "other_before": other0, "other_after": self.observe(self._t2) if self._t2 is not None else None,
-                   "final": self.final_reads(d)}
+                   "final": self.final_reads(d), "same_object": same}
+            if self._t2 is not None:
+                res["other_pre"] = self._t2_steps
+            if case.get("post"):
+                # the source is used again while the derived track is alive
+                res["derived_before_post"] = self.observe(d)
+                res["post"] = self.run_ops(t, case["post"])
+                res["derived_after_post"] = self.observe(d)
             self._t2 = None
             if len(self._impl_cache) > 2000:
                 self._impl_cache.clear()
@@ -1442,6 +2023,13 @@ class P(Prop):
     def ckey(case):
         return hashlib.sha1(json.dumps(case, sort_keys=True).encode()).hexdigest()
 
+    @staticmethod
+    def phase_ops(case, which):
+        """the calls of one phase of a case: pre / ops / post, or other_pre = the calls made on the second operand of +"""
+        if which == "other_pre":
+            return case["carry"][2] if case["carry"][0] == "plus" else []
+        return case.get(which) or []
+
     def opaque_vals(self, case, which="ops"):
         """per step: the list returned by the implementation for an opaque operator ([] when it raised / returned junk)"""
         key = self.ckey(case)
@@ -1452,8 +2040,8 @@ class P(Prop):
                 res = self.impl(case)
             self._impl_cache[key] = res
         out = {}
-        steps = res["steps"] if which == "ops" else res.get("pre", [])
-        for k, (op, st) in enumerate(zip(case[which], steps)):
+        steps = res.get({"ops": "steps"}.get(which, which)) or []
+        for k, (op, st) in enumerate(zip(self.phase_ops(case, which), steps)):
             if op[0] in self.OPAQUE:
                 r = st["ret"]
                 ok = st["out"] == "ok" and r != "-" and r[0] == "c" and all(isinstance(v, float) for v in r[1])
@@ -1463,6 +2051,10 @@ class P(Prop):
     # ---------------------------------------------------------------- model
     def op_token(self, op, vals=None):
         k = op[0]
+        if k == "list":
+            if op[1][0][0] in LIST_REFUSED:
+                return "refused"
+            return "seq;" + ";".join(self.op_token(sub) for sub in op[1])
         o = lambda x: enc(x) if x is not None else ""
         if k in self.OPAQUE:
             out = list(op_targets(op))[0]
@@ -1526,7 +2118,7 @@ class P(Prop):
         return res
 
     def body(self, case, which):
-        ops = case[which]
+        ops = self.phase_ops(case, which)
         ov = self.opaque_vals(case, which) if any(op[0] in self.OPAQUE for op in ops) else {}
         return " ".join(self.op_token(op, ov.get(k)) for k, op in enumerate(ops))
 
@@ -1547,6 +2139,13 @@ class P(Prop):
         return names
 
     def requests(self, case):
+        if case["kind"] == "vals":
+            if not case["ops"]:
+                return []
+            vt = VTab(case["n"])
+            head = " ".join(",".join(c) or "_" for c in (vt.X, vt.Y, vt.Z, vt.T))
+            body = " ".join(self.vop_token(op) for op in case["ops"])
+            return ["C01.vrun %s %s" % (head, body), "C01.varun %s %s" % (head, body)]
         tb = Tab(case["n"])
         head = " ".join(tokl(c) for c in (tb.X, tb.Y, tb.Z, tb.T))
         if case["kind"] == "carry":
@@ -1555,19 +2154,71 @@ class P(Prop):
             if case["pre"]:
                 b = self.body(case, "pre")
                 out += ["C01.run %s %s" % (head, b), "C01.arun %s %s" % (head, b)]
-            if "first" in res and case["ops"] and res["first"]["X"]:
-                names = self.carried_table(res["first"])
-                if names is not None:
-                    f = res["first"]
-                    h2 = " ".join(tokl(f[c]) for c in "XYZT")
-                    tbl = "%s %s" % (enc_list(names), ";".join(tokl(f["cols"][nm]) for nm in names) if names else "_")
-                    b = self.body(case, "ops")
-                    out += ["C01.runi %s %s %s" % (h2, tbl, b), "C01.aruni %s %s %s" % (h2, tbl, b)]
+            # the model runs a history from the table the implementation shows when the history starts
+            for which, start in (("ops", "first"), ("post", "src_after")):
+                f = res.get(start)
+                if f is not None and case.get(which) and f["X"]:
+                    names = self.carried_table(f)
+                    if names is not None:
+                        h2 = " ".join(tokl(f[c]) for c in "XYZT")
+                        tbl = "%s %s" % (enc_list(names), ";".join(tokl(f["cols"][nm]) for nm in names) if names else "_")
+                        b = self.body(case, which)
+                        out += ["C01.runi %s %s %s" % (h2, tbl, b), "C01.aruni %s %s %s" % (h2, tbl, b)]
+            out.append(self.world_request(case, res))
             return out
         if not case["ops"]:
             return []
         body = self.body(case, "ops")
         return ["C01.run %s %s" % (head, body), "C01.arun %s %s" % (head, body)]
+
+    # ---- the whole case on the model of the heap (Model/FeaturesWorld.lean): the source track, the second operand of +, the
+    # derivation itself, the calls on the derived track and the calls on the source afterwards, every track observed after every step
+    @staticmethod
+    def carry_token(c):
+        if c[0] in ("copy", "loop"):
+            return "d:" + c[0]
+        if c[0] in ("extract", "slice", "span"):
+            return "d:%s:%d:%d" % (c[0], c[1], c[2])
+        if c[0] == "addcopy":
+            return "d:addcopy:%d:%s" % (c[1], "" if c[2] is None else c[2])
+        return "d:plus:1"
+
+    def world_plan(self, case, res):
+        """[(token, what the reply group is compared with)]: ('pre', k) ('other_pre', k) ('derive',) ('ops', k) ('post', k), None for `on:K`"""
+        c = case["carry"]
+        tb = Tab(case["n"])
+        plan = [("new:" + ":".join(tokl(col) for col in (tb.X, tb.Y, tb.Z, tb.T)), None)]
+        for k, tok in enumerate(self.body(case, "pre").split(" ") if case["pre"] else []):
+            plan.append((tok, ("pre", k)))
+        derived = 0 if c[0] in self.SAME_OBJECT else 1
+        if c[0] == "plus":
+            m = c[1]
+            plan.append(("new:" + ":".join(tokl(col) for col in ([50.0 + i for i in range(m)], [60.0 + 2 * i for i in range(m)],
+                                                                    [70.0 + 3 * i for i in range(m)], [2000.0 + i for i in range(m)])), None))
+            if c[2] and "other_pre" in res:
+                plan.append(("on:1", None))
+                for k, tok in enumerate(self.body(case, "other_pre").split(" ")):
+                    plan.append((tok, ("other_pre", k)))
+                plan.append(("on:0", None))
+            elif c[2]:
+                return plan, derived       # the implementation raised while the second operand was made: nothing further to compare
+            derived = 2
+        plan.append((self.carry_token(c), ("derive",)))
+        if "carry_err" in res:
+            return plan, derived
+        if case["ops"]:
+            plan.append(("on:%d" % derived, None))
+            for k, tok in enumerate(self.body(case, "ops").split(" ")):
+                plan.append((tok, ("ops", k)))
+        if case.get("post") and "post" in res:
+            plan.append(("on:0", None))
+            for k, tok in enumerate(self.body(case, "post").split(" ")):
+                plan.append((tok, ("post", k)))
+        return plan, derived
+
+    def world_request(self, case, res):
+        plan, _ = self.world_plan(case, res)
+        return "C01.world " + " ".join(tok for tok, _ in plan)
 
     @staticmethod
     def parse_block(b):
@@ -1598,15 +2249,29 @@ class P(Prop):
         for r in replies:
             if r == "bad-request":
                 raise ValueError("driver refused the request")
+        if case["kind"] == "vals":
+            if not case["ops"]:
+                return {"steps": [], "asteps": []}
+            blocks = [[self.parse_block_v(b) for b in r.split(" ")] for r in replies]
+            return {"steps": blocks[0], "asteps": blocks[1]}
+        world = None
+        if case["kind"] == "carry":
+            world = [[self.parse_block(b) for b in g.split("^")] for g in replies[-1].split(" ")]
+            replies = replies[:-1]
         blocks = [[self.parse_block(b) for b in r.split(" ")] for r in replies]
         if case["kind"] == "carry":
-            out = {"pre": None, "apre": None, "steps": None, "asteps": None}
+            out = {"pre": None, "apre": None, "steps": None, "asteps": None, "post": None, "apost": None, "world": world}
             k = 0
             if case["pre"]:
                 out["pre"], out["apre"] = blocks[0], blocks[1]
                 k = 2
-            if len(blocks) > k:
-                out["steps"], out["asteps"] = blocks[k], blocks[k + 1]
+            # which of the two later phases were requested is decided as in requests(), from the implementation's output
+            res = self.cached_impl(case)
+            for which, start, key in (("ops", "first", "steps"), ("post", "src_after", "post")):
+                f = res.get(start)
+                if f is not None and case.get(which) and f["X"] and self.carried_table(f) is not None and len(blocks) > k + 1:
+                    out[key], out["a" + key] = blocks[k], blocks[k + 1]
+                    k += 2
             return out
         if not case["ops"]:
             return {"steps": [], "asteps": []}
@@ -1624,8 +2289,14 @@ class P(Prop):
         return a[0] == b[0] and close(a[1], b[1])
 
     def diff_step(self, op, si, sm, with_rows=True):
+        if si.get("observe_err"):
+            return "the implementation's track cannot be observed: %s" % si["observe_err"]
         if si["out"] != sm["out"]:
-            return "outcome impl=%s model=%s" % (si["out"], sm["out"])
+            # an operator with opaque values that raises inside its numeric part (FILTER_FFT with a kernel longer than the track:
+            # ValueError from numpy): the model, which is handed no values, raises IndexError at the write - the kind is not
+            # compared, the table left behind is
+            if not (op[0] in self.OPAQUE and si["out"].startswith("err") and sm["out"].startswith("err")):
+                return "outcome impl=%s model=%s" % (si["out"], sm["out"])
         if si["out"] == "ok" and not self.same_ret(op, si["ret"], sm["ret"]):
             return "returned value impl=%s model=%s" % (si["ret"], sm["ret"])
         if sorted(si["names"]) != sorted(sm["names"]):
@@ -1660,6 +2331,94 @@ class P(Prop):
                 return "%sstep %d %s (specification table): %s" % (label, k, op, d)
         return None
 
+    def diff_state(self, si, sm, values=True):
+        """two observations of one track (the implementation's, the model's), without outcome"""
+        if si.get("observe_err"):
+            return "the implementation's track cannot be observed: %s" % si["observe_err"]
+        if sorted(si["names"]) != sorted(sm["names"]):
+            return "names impl=%s model=%s" % (si["names"], sm["names"])
+        for nm in si["names"] if values else []:
+            if not close(si["cols"][nm], sm["cols"][nm]):
+                return "column %s impl=%s model=%s" % (nm, si["cols"][nm], sm["cols"][nm])
+        if si["rowlens"] != sm["rowlens"]:
+            return "len(features) impl=%s model=%s" % (si["rowlens"], sm["rowlens"])
+        for c in "XYZT":
+            if not close(si[c], sm[c]):
+                return "%s impl=%s model=%s" % (c, si[c], sm[c])
+        return None
+
+    def compare_world(self, case, impl_out, world):
+        """the model of the heap against the implementation: the track a step is addressed to after every step, and every
+        track (the source, the second operand of +, the derived track) wherever the implementation was observed"""
+        plan, derived = self.world_plan(case, impl_out)
+        groups = [what for _, what in plan if what is not None]
+        # reply groups exist for every step but `on:K`; the `new` steps have no counterpart on the implementation's side
+        steps = [what for tok, what in plan if not tok.startswith("on:")]
+        if world is None or len(world) != len(steps):
+            return "heap model: %d reply groups for %d steps" % (len(world or []), len(steps))
+        c = case["carry"]
+        last_ops = len(case["ops"]) - 1
+        # States in which WHICH value a name reads depends on where the columns sit in the observations (the property leaves that
+        # free: a swap-remove is as good as a shift): the sum of two tracks whose listings differ only in their order (`+` compares
+        # them position by position), and a derived track that starts misaligned (finding sum-of-different-feature-lists: no name
+        # listed, values carried). There the outcome, the listed names, the number of values per observation and the coordinates
+        # are compared, not the column values.
+        loose = False
+        if c[0] == "plus" and "first" in impl_out:
+            a, b = impl_out["src_before"]["names"], (impl_out.get("other_before") or {}).get("names")
+            if b is not None and a != b and sorted(a) == sorted(b):
+                return None
+            loose = self.carried_table(impl_out["first"]) is None
+        for what, g in zip(steps, world):
+            if what is None:
+                continue
+            if any(b["out"] == "unsupported" for b in g):
+                return None                # outside the model: the rest of the session is not compared
+            ph = what[0]
+            label = "heap model, %s: " % (what,)
+            if ph == "derive":
+                if "carry_err" in impl_out:
+                    return None if g[0]["out"] == impl_out["carry_err"] else label + "outcome impl=%s model=%s" % (impl_out["carry_err"], g[0]["out"])
+                if g[0]["out"] != "ok":
+                    return label + "outcome impl=ok model=%s" % g[0]["out"]
+                pairs = [(0, impl_out["src_before"], "source"), (derived, impl_out["first"], "derived track")]
+                if c[0] == "plus":
+                    pairs.append((1, impl_out["other_before"], "second operand"))
+                for k, si, nm in pairs:
+                    d = self.diff_state(si, g[k]) if k < len(g) else "no such track in the model"
+                    if d:
+                        return label + nm + ": " + d
+                continue
+            k = what[1]
+            trk = {"pre": 0, "other_pre": 1, "ops": derived, "post": 0}[ph]
+            si = impl_out[{"ops": "steps"}.get(ph, ph)][k]
+            op = self.phase_ops(case, ph)[k]
+            if trk >= len(g):
+                d = "no such track in the model"
+            elif loose and ph == "ops":
+                d = ("outcome impl=%s model=%s" % (si["out"], g[trk]["out"])) if si["out"] != g[trk]["out"] else self.diff_state(si, g[trk], values=False)
+            else:
+                d = self.diff_step(op, si, g[trk])
+            if d:
+                return label + "%s: %s" % (op, d)
+            if ph == "ops" and k == last_ops:
+                pairs = [] if c[0] in self.SAME_OBJECT else [(0, impl_out["src_after"], "source afterwards")]
+                if c[0] == "plus":
+                    pairs.append((1, impl_out["other_after"], "second operand afterwards"))
+                # a track that SHARES its observations with the derived one (extract / slice / +) has been written to through
+                # column positions of the derived track: which of its names reads what then depends on where the columns sit, which
+                # the property leaves free (a swap-remove is as good as a shift) - compared there: listed names, values per
+                # observation, coordinates; for the independent forms everything
+                for j, sj, nm in pairs:
+                    d = self.diff_state(sj, g[j], values=c[0] in self.INDEPENDENT)
+                    if d:
+                        return label + nm + ": " + d
+            if ph == "post" and k == len(case["post"]) - 1:
+                d = self.diff_state(impl_out["derived_after_post"], g[derived])
+                if d:
+                    return label + "derived track afterwards: " + d
+        return None
+
     def compare(self, case, impl_out, model_out):
         if "err" in impl_out:
             return "implementation harness raised %s" % impl_out
@@ -1670,20 +2429,41 @@ class P(Prop):
                     return d
                 if any(st["out"] == "unsupported" for st in model_out["pre"]):
                     return None
-            if model_out["steps"] is None:
-                return None                # nothing carried that the model could start from (reported by the oracle if it is a defect)
-            return self.compare_ops(case["ops"], impl_out["steps"], model_out["steps"], model_out["asteps"], "derived track, ")
+            if model_out["steps"] is not None:     # else: nothing carried that the model could start from (reported by the oracle if it is a defect)
+                d = self.compare_ops(case["ops"], impl_out["steps"], model_out["steps"], model_out["asteps"], "derived track, ")
+                if d:
+                    return d
+            if model_out.get("post") is not None:
+                d = self.compare_ops(case["post"], impl_out["post"], model_out["post"], model_out["apost"], "source track after the derivation, ")
+                if d:
+                    return d
+            return self.compare_world(case, impl_out, model_out["world"])
         return self.compare_ops(case["ops"], impl_out["steps"], model_out["steps"], model_out["asteps"])
 
     # ---------------------------------------------------------------- oracle (transfer)
     def spec(self, case, out):
         return self.spec_(case, out)
 
-    def spec_ops(self, tab, ops, steps, label=""):
+    @staticmethod
+    def may_delete(op, nm):
+        """is unlisting the feature `nm` part of the documented meaning of the call?"""
+        k = op[0]
+        if k == "remove":
+            return nm == op[1]
+        if k == "expr":
+            return nm.startswith("#")
+        if k == "abscurv":
+            return nm == "ds"
+        return False
+
+    def spec_ops(self, tab, ops, steps, label="", exp=None):
         n = tab.n
+        exp = exp or expected
         for k, op in enumerate(ops):
             ob = steps[k]
             where = "%safter call %d %s (%s): " % (label, k, op, ob["out"])
+            if ob.get("observe_err"):
+                return where + "the track can no longer be read (getListAnalyticalFeatures / len(obs.features) / getX..getT): %s" % ob["observe_err"]
             names = ob["names"]
             # every observation carries exactly one value per listed name
             if len(set(names)) != len(names):
@@ -1705,7 +2485,7 @@ class P(Prop):
                 return where + "observation %d stores a %s in feature column %d: not one value per listed feature" % (i, ty, j)
             tg = op_targets(op)
             hashy = op[0] == "expr"
-            e = expected(tab, op)
+            e = exp(tab, op)
             if e is not None and ob["out"] != "ok":
                 lost = [nm for nm in tg if nm in tab.cols and nm not in names]
                 return where + "the call raised although every operand exists and the call is well formed (expected to write %s)%s" % (
@@ -1743,6 +2523,14 @@ class P(Prop):
                     elif nm in names:
                         tab.cols[nm] = ob["cols"][nm]
                     else:
+                        # The call may have (partly) written its target or created it - it may not have DELETED it: a feature that
+                        # was written and whose deletion nobody asked for still reads (its last written values, or what this call
+                        # wrote), whether the call returned or raised. Deletions that ARE the call's documented meaning: remove /
+                        # '#DELETE' of that name, the '#' names (they belong to the evaluator: purged by every operate(str)), and
+                        # the built-in intermediate 'ds' of computeAbsCurv.
+                        if nm in tab.cols and not self.may_delete(op, nm):
+                            return where + "feature %r (last written %s) is no longer listed: the call %s and no deletion of %r was requested" % (
+                                nm, tab.cols[nm], "returned" if ob["out"] == "ok" else "raised " + ob["out"], nm)
                         tab.cols.pop(nm, None)
             # reading a name returns what was last written under it; nothing else changed
             if sorted(names) != sorted(tab.cols):
@@ -1777,8 +2565,13 @@ class P(Prop):
 
     def spec_(self, case, out):
         if "err" in out:
-            return "harness could not run the history: %s" % out
+            # impl() guards every API call of the history and every observation: what is left is the harness's own plumbing
+            # (building the fresh track, bookkeeping) - a harness error (the engine reports an oracle crash), never a violation
+            raise RuntimeError("harness could not run the history: %s" % out)
         n = case["n"]
+        if case["kind"] == "vals":
+            msg = self.spec_ops(VTab(n), case["ops"], out["steps"], exp=expected_v)
+            return untok_text(msg) if msg else None
         tab = Tab(n)
         if case["kind"] != "carry":
             msg = self.spec_ops(tab, case["ops"], out["steps"])
@@ -1791,17 +2584,17 @@ class P(Prop):
             return msg
         c = case["carry"]
         if "carry_err" in out:
-            return "%s raised %s" % (c, out["carry_err"])
-        src, first = out["src_before"], out["first"]
-        if c[0] == "copy":
-            lo, hi, m = 0, n, 0
-        elif c[0] == "extract":
-            lo, hi, m = c[1], c[2] + 1, 0
-        elif c[0] == "slice":
-            lo, hi, m = c[1], c[2], 0
-        else:
-            lo, hi, m = 0, n, c[1]
-        dt = Tab(hi - lo + m)
+            # the derivation itself raised: no track was made, so there is no table the property could speak about (that copy /
+            # extract / + must succeed is not part of the statement); the correspondence with the heap model compares the outcome
+            return None
+        src, first = out["src_pre"], out["first"]
+        for what, ob in (("source track", src), ("track derived by %s" % (c[:2],), first)):
+            if ob.get("observe_err"):
+                return "%s: the track cannot be read (getListAnalyticalFeatures / len(obs.features) / getX..getT): %s" % (what, ob["observe_err"])
+        same = c[0] in self.SAME_OBJECT
+        sel = self.carry_selection(c, n)
+        m = c[1] if c[0] == "plus" else 0
+        dt = Tab(len(sel) + m)
         oth = out["other_before"]
         if m and (oth is None or oth["names"] != src["names"]):
             # the operands do not list the same features: the sum lists none, and then its observations must not carry any
@@ -1814,17 +2607,19 @@ class P(Prop):
         else:
             want_names = list(src["names"])
         for cn in "XYZT":
-            col = getattr(tab, cn)[lo:hi] + ((oth[cn] if oth else []) if m else [])
+            col = [getattr(tab, cn)[k] for k in sel] + ((oth[cn] if oth else []) if m else [])
             setattr(dt, cn, col)
         for nm in want_names:
             if m and not isinstance(oth["cols"].get(nm), list):
                 return "second operand of %s: reading its listed feature %r raises %s" % (c[:2], nm, oth["cols"].get(nm))
-            dt.cols[nm] = tab.cols[nm][lo:hi] + (oth["cols"][nm] if m else [])
-        where = "track derived by %s: " % (c[:3] if c[0] != "plus" else c[:2],)
-        if first["names"] != want_names:
+            dt.cols[nm] = [tab.cols[nm][k] for k in sel] + (oth["cols"][nm] if m else [])
+        where = "track derived by %s: " % (c[:2] if c[0] == "plus" else c,)
+        if sorted(first["names"]) != sorted(want_names):
             return where + "lists %s, the source lists %s" % (first["names"], want_names)
         if any(l != len(want_names) for l in first["rowlens"]):
             return where + "%d names listed but the observations carry %s values" % (len(want_names), first["rowlens"])
+        if len(first["rowlens"]) != dt.n:
+            return where + "%d observations, expected %d" % (len(first["rowlens"]), dt.n)
         for nm in want_names:
             if not close(first["cols"][nm], dt.cols[nm]):
                 return where + "feature %r reads %s, the source holds %s there" % (nm, first["cols"][nm], dt.cols[nm])
@@ -1839,16 +2634,28 @@ class P(Prop):
         msg = self.spec_final(dt, out, "derived track, ")
         if msg:
             return msg
+        if same:
+            return None                    # the derived track IS the source track (closed into a ring / one observation appended)
         # feature calls on the derived track are calls on THAT track: the tables of the tracks it was made from stay as they were
         # (coordinates of shared observations may move: that sharing is documented behaviour of slices)
         for label, b4, af in (("source", out["src_before"], out["src_after"]), ("second operand", out["other_before"], out["other_after"])):
             if b4 is None:
                 continue
+            if label == "source" and not self.same_obs(out["src_pre"], b4):
+                return "making the derived track by %s changed the source track: %s -> %s" % (c, out["src_pre"], b4)
             if af["names"] != b4["names"] or any(l != len(af["names"]) for l in af["rowlens"]):
                 return "after the calls on the derived track the %s track lists %s and its observations carry %s values (before: %s, %s)" % (
                     label, af["names"], af["rowlens"], b4["names"], b4["rowlens"])
-            if c[0] == "copy" and not self.same_obs(b4, af):
-                return "after the calls on the copy the %s track changed: %s -> %s" % (label, b4, af)
+            if c[0] in self.INDEPENDENT and not self.same_obs(b4, af):
+                return "after the calls on the track made by %s (its observations are copies) the %s track changed: %s -> %s" % (c[0], label, b4, af)
+        if case.get("post") and "post" in out:
+            # the source is used again: its own table evolves as if the derived track did not exist, and the derived track does not move
+            msg = self.spec_ops(tab, case["post"], out["post"], "source track after %s, " % c[0])
+            if msg:
+                return msg
+            if not self.same_obs(out["derived_before_post"], out["derived_after_post"]):
+                return "after the calls on the source track the track made from it by %s (its observations are copies) changed: %s -> %s" % (
+                    c[0], out["derived_before_post"], out["derived_after_post"])
         return None
 
     def classify(self, case, impl_out, msg):
@@ -1865,8 +2672,12 @@ class P(Prop):
     # ---------------------------------------------------------------- shrinking / search
     def shrink(self, case):
         kind = "rand" if case["kind"] == "exh" else case["kind"]
-        for key in (("ops", "pre") if kind == "carry" else ("ops",)):
-            ops = case[key]
+        if case.get("post"):
+            yield {k: v for k, v in case.items() if k != "post"}
+        for key in (("ops", "pre", "post") if kind == "carry" else ("ops",)):
+            ops = case.get(key)
+            if ops is None:
+                continue
             lo = 0 if (kind == "carry") else 1
             for k in range(len(ops) - 1, lo - 1, -1):
                 yield dict(case, kind=kind, **{key: ops[:k]})
@@ -1880,7 +2691,22 @@ class P(Prop):
         n = case["n"]
         kind = "rand" if case["kind"] == "exh" else case["kind"]
         pool, rich = case.get("pool"), case["kind"] in ("rich", "names")
+        if kind == "vals":
+            for _ in range(20):
+                k = rng.randrange(len(ops))
+                yield dict(case, ops=ops[:k] + [self.rand_vop(rng, n)] + ops[k:])
+                yield dict(case, ops=ops + [self.rand_vop(rng, n) for _ in range(3)])
+            return
         for _ in range(20):
             k = rng.randrange(len(ops))
             yield dict(case, kind=kind, ops=ops[:k] + self.gen_history(rng, n, 1, pool, rich) + ops[k:])
             yield dict(case, kind=kind, ops=ops + self.gen_history(rng, n, 3, pool, rich))
+        if kind == "carry" and n >= 1:
+            # the same calls on a track made in another way, and the source used again afterwards
+            for _ in range(10):
+                c2 = self.rand_carry(rng, n, case["pre"], pool or ["a", "b", "c"], False)
+                m = {k_: v for k_, v in case.items() if k_ != "post"}
+                m["carry"] = c2
+                if c2[0] in self.INDEPENDENT:
+                    m["post"] = self.gen_history(rng, n, rng.choice([1, 2, 4]), pool, False)
+                yield m
